@@ -15,7 +15,7 @@ PROPS = {
     "C01": {
         "lean_modules": ["RosedVerif.Props.C01"],
         "theorems": "auto",
-        "groups": ["G-split", "A-chars"],
+        "groups": ["G-split", "G-probe", "A-chars"],
         "oracle": True,
         "tie": "tables regenerated from source (translator, validated by execution on 1.25M rune values); "
                "rule chain regenerated as data (Gen/Rules.lean) and proved equal to the model's chain (C01_rule_chain); model also tied by G-split (exhaustive class strings + random)",
@@ -33,7 +33,7 @@ PROPS = {
     "C03": {
         "lean_modules": ["RosedVerif.Props.C03"],
         "theorems": "auto",
-        "groups": ["A-rel"],
+        "groups": ["A-rel", "A-wrap", "A-justify"],
         "oracle": True,
         "tie": "relational run on the real code: the same operation on a stable text and on its cluster-for-cluster substitution (precomposed/decomposed, emoji ZWJ, flags, jamo), both also run on the model",
     },
